@@ -1,3 +1,4 @@
+import BigDec.Model.ToF64
 import BigDec.Model.Round
 import BigDec.Model.Arith
 import BigDec.Spec.Round
@@ -21,7 +22,7 @@ def handle (op : String) (args : List String) (impl : String) : Verdict :=
   | "digits", [a] =>
     match parseDec? a, parseNat? impl with
     | some a, some r =>
-      let m := countDigitsUint estF64 a.int.natAbs
+      let m := countDigitsUint F64.estCode a.int.natAbs
       { model := toString m, mi := m == r, si := isDigitCount a.int.natAbs r, sm := isDigitCount a.int.natAbs m,
         tag := "digits", trivial := a.int.natAbs < 10 }
     | _, _ => badInput "digits args"
@@ -31,11 +32,13 @@ def handle (op : String) (args : List String) (impl : String) : Verdict :=
       match parseNat? d, parseNat? r with
       | some d, some r =>
         let n := if which == "lo" then 2 ^ (b - 1) else 2 ^ b - 1
-        let md := countDigitsUint estF64 n
-        let mr := getRoundingTerm estF64 n
+        let md := countDigitsUint F64.estCode n
+        let mr := getRoundingTerm F64.estCode n
         let specR := if 5 * 10 ^ (d - 1) ≤ n then 1 else 0
         { model := s!"{md} {mr}", mi := md == d && mr == r, si := isDigitCount n d && r == specR,
-          sm := isDigitCount n md && (mr == if 5 * 10 ^ (md - 1) ≤ n then 1 else 0), tag := "digitsbits" }
+          sm := isDigitCount n md && (mr == if 5 * 10 ^ (md - 1) ≤ n then 1 else 0),
+          -- the estimate through the rounding primitive vs Lean's hardware doubles, observed per bit length
+          tag := "digitsbits" ++ (if estF64 b == F64.estCode b then "" else "+hardware-estimate-differs") }
       | _, _ => badInput "digitsbits impl"
     | _, _ => badInput "digitsbits args"
   | "tenpow", [k] =>
@@ -86,7 +89,7 @@ def handle (op : String) (args : List String) (impl : String) : Verdict :=
     match parseDec? a, parseNat? p with
     | some a, some p =>
       let nd := Spec.numDigits a.int.natAbs
-      C06.judgeExact (a.withPrec estF64 p) ⟨a.int * (10 ^ (p - nd) : Nat), a.scale + ((p - nd : Nat) : Int)⟩ impl "wpext" (p == nd)
+      C06.judgeExact (a.withPrec F64.estCode p) ⟨a.int * (10 ^ (p - nd) : Nat), a.scale + ((p - nd : Nat) : Int)⟩ impl "wpext" (p == nd)
     | _, _ => badInput "wpext args"
   | _, _ => badInput ("C18 op " ++ op)
 
